@@ -2136,12 +2136,12 @@ let r_prefix which mk top nts df =
         | i0 :: l0 ->
           (match i0 with
            | ITok _ -> None
-           | IExp rest ->
+           | IExp rest0 ->
              (match l0 with
               | [] ->
                 if is which t
                 then Some
-                       (bind (wrap_literal rest df) (fun r' ->
+                       (bind (wrap_literal rest0 df) (fun r' ->
                          bind (expr_new (VExp r') mk []) (fun e ->
                            bind (drop (S O) nts) (fun n' -> Ret (((IExp
                              e) :: []), n')))))
@@ -2157,7 +2157,7 @@ let r_fuzzy top nts df =
   | i :: l ->
     (match i with
      | ITok _ -> None
-     | IExp rest ->
+     | IExp rest0 ->
        (match l with
         | [] -> None
         | i0 :: l0 ->
@@ -2167,7 +2167,7 @@ let r_fuzzy top nts df =
               | [] ->
                 if is TTilde t
                 then Some
-                       (bind (wrap_literal rest df) (fun r' ->
+                       (bind (wrap_literal rest0 df) (fun r' ->
                          bind
                            (expr_new (VExp r') Fuzzy ((VInt (Zpos XH)) :: []))
                            (fun e ->
@@ -2186,7 +2186,7 @@ let r_fuzzy top nts df =
                               (match e_op d with
                                | Literal ->
                                  Some
-                                   (bind (wrap_literal rest df) (fun r' ->
+                                   (bind (wrap_literal rest0 df) (fun r' ->
                                      bind
                                        (expr_new (VExp r') Fuzzy ((VInt
                                          n1) :: [])) (fun e ->
@@ -2220,7 +2220,7 @@ let r_boost o top nts df =
   | i :: l ->
     (match i with
      | ITok _ -> None
-     | IExp rest ->
+     | IExp rest0 ->
        (match l with
         | [] -> None
         | i0 :: l0 ->
@@ -2230,7 +2230,7 @@ let r_boost o top nts df =
               | [] ->
                 if is TCarrot t
                 then Some
-                       (bind (wrap_literal rest df) (fun r' ->
+                       (bind (wrap_literal rest0 df) (fun r' ->
                          bind
                            (expr_new (VExp r') Boost ((VFloat
                              one_bits) :: [])) (fun e ->
@@ -2247,7 +2247,7 @@ let r_boost o top nts df =
                       then (match to_positive_float o p with
                             | Some f ->
                               Some
-                                (bind (wrap_literal rest df) (fun r' ->
+                                (bind (wrap_literal rest0 df) (fun r' ->
                                   bind
                                     (expr_new (VExp r') Boost ((VFloat
                                       f) :: [])) (fun e ->
@@ -2346,10 +2346,10 @@ let reducers o =
 let rec try_reducers rs0 top nts df =
   match rs0 with
   | [] -> None
-  | r :: rest ->
+  | r :: rest0 ->
     (match r top nts df with
      | Some x -> Some x
-     | None -> try_reducers rest top nts df)
+     | None -> try_reducers rest0 top nts df)
 
 type rres =
 | RFail
@@ -2362,13 +2362,13 @@ type rres =
 let rec reduce_loop o rstack top nts df =
   match rstack with
   | [] -> RFail
-  | s :: rest ->
+  | s :: rest0 ->
     (match try_reducers (reducers o) (s :: top) nts df with
      | Some o0 ->
        (match o0 with
-        | Ret a -> let (top', nts') = a in ROk ((rev_append top' rest), nts')
+        | Ret a -> let (top', nts') = a in ROk ((rev_append top' rest0), nts')
         | Panic p -> RPanic p)
-     | None -> reduce_loop o rest (s :: top) nts df)
+     | None -> reduce_loop o rest0 (s :: top) nts df)
 
 (** val any_open_bracket : token -> token -> bool **)
 
@@ -2908,9 +2908,9 @@ let str_e o2 =
           bind
             (let rec each = function
              | [] -> Ret []
-             | x :: rest ->
+             | x :: rest0 ->
                bind (str_v (if verbose then S (S O) else S O) (e_left x))
-                 (fun a -> bind (each rest) (fun b -> Ret (a :: b)))
+                 (fun a -> bind (each rest0) (fun b -> Ret (a :: b)))
              in each vals) (fun xs -> Ret
             (if verbose
              then cats
@@ -3339,12 +3339,12 @@ let render o2 =
     let rec each l0 acc =
       match l0 with
       | [] -> Ret ((join (','::(' '::[])) (rev acc)), None)
-      | x :: rest ->
+      | x :: rest0 ->
         bind (render0 x) (fun s ->
           let (s', g) = s in
           (match g with
            | Some er -> Ret (s', (Some er))
-           | None -> each rest (s' :: acc)))
+           | None -> each rest0 (s' :: acc)))
     in each l []
   | VBound (mn, mx, incl) ->
     bind (serialize mn) (fun a ->
@@ -3408,14 +3408,14 @@ let render_param o2 =
                            | [] ->
                              Panic
                                ('R'::('e'::('n'::('d'::('e'::('r'::('P'::('a'::('r'::('a'::('m'::(':'::(' '::('r'::('p'::('a'::('r'::('a'::('m'::('s'::('['::('0'::(']'::[])))))))))))))))))))))))
-                           | v :: rest ->
+                           | v :: rest0 ->
                              (match v with
                               | VStr rval0 ->
                                 if is_regex_text rval0
                                 then Ret (rt0, rparams0)
                                 else Ret (rt0, ((VStr
                                        (replace_char '?' ('_'::[])
-                                         (replace_char '*' ('%'::[]) rval0))) :: rest))
+                                         (replace_char '*' ('%'::[]) rval0))) :: rest0))
                               | _ ->
                                 Panic
                                   ('R'::('e'::('n'::('d'::('e'::('r'::('P'::('a'::('r'::('a'::('m'::(':'::(' '::('r'::('p'::('a'::('r'::('a'::('m'::('s'::('['::('0'::(']'::('.'::('('::('s'::('t'::('r'::('i'::('n'::('g'::(')'::[]))))))))))))))))))))))))))))))))))
@@ -3423,14 +3423,14 @@ let render_param o2 =
                            | [] ->
                              Panic
                                ('R'::('e'::('n'::('d'::('e'::('r'::('P'::('a'::('r'::('a'::('m'::(':'::(' '::('r'::('p'::('a'::('r'::('a'::('m'::('s'::('['::('0'::(']'::[])))))))))))))))))))))))
-                           | v :: rest ->
+                           | v :: rest0 ->
                              (match v with
                               | VStr rval0 ->
                                 if is_regex_text rval0
                                 then Ret (rt, rparams)
                                 else Ret (rt, ((VStr
                                        (replace_char '?' ('_'::[])
-                                         (replace_char '*' ('%'::[]) rval0))) :: rest))
+                                         (replace_char '*' ('%'::[]) rval0))) :: rest0))
                               | _ ->
                                 Panic
                                   ('R'::('e'::('n'::('d'::('e'::('r'::('P'::('a'::('r'::('a'::('m'::(':'::(' '::('r'::('p'::('a'::('r'::('a'::('m'::('s'::('['::('0'::(']'::('.'::('('::('s'::('t'::('r'::('i'::('n'::('g'::(')'::[]))))))))))))))))))))))))))))))))))
@@ -3439,14 +3439,14 @@ let render_param o2 =
                       | [] ->
                         Panic
                           ('R'::('e'::('n'::('d'::('e'::('r'::('P'::('a'::('r'::('a'::('m'::(':'::(' '::('r'::('p'::('a'::('r'::('a'::('m'::('s'::('['::('0'::(']'::[])))))))))))))))))))))))
-                      | v :: rest ->
+                      | v :: rest0 ->
                         (match v with
                          | VStr rval0 ->
                            if is_regex_text rval0
                            then Ret (rt, rparams)
                            else Ret (rt, ((VStr
                                   (replace_char '?' ('_'::[])
-                                    (replace_char '*' ('%'::[]) rval0))) :: rest))
+                                    (replace_char '*' ('%'::[]) rval0))) :: rest0))
                          | _ ->
                            Panic
                              ('R'::('e'::('n'::('d'::('e'::('r'::('P'::('a'::('r'::('a'::('m'::(':'::(' '::('r'::('p'::('a'::('r'::('a'::('m'::('s'::('['::('0'::(']'::('.'::('('::('s'::('t'::('r'::('i'::('n'::('g'::(')'::[])))))))))))))))))))))))))))))))))))
@@ -3536,13 +3536,13 @@ let render_param o2 =
     let rec each l0 acc ps =
       match l0 with
       | [] -> Ret (((join (','::(' '::[])) (rev acc)), ps), None)
-      | x :: rest ->
+      | x :: rest0 ->
         bind (render_param0 x) (fun s ->
           let (p, g) = s in
           let (s', eps) = p in
           (match g with
            | Some er -> Ret ((s', ps), (Some er))
-           | None -> each rest (s' :: acc) (app ps eps)))
+           | None -> each rest0 (s' :: acc) (app ps eps)))
     in each l [] []
   | VBound (mn, mx, incl) ->
     bind (ser_param mn) (fun a ->
@@ -3662,10 +3662,10 @@ let marshal_e o2 =
       | [] ->
         Ret (Some
           (append ('['::[]) (append (join (','::[]) (rev acc)) (']'::[]))))
-      | x :: rest ->
+      | x :: rest0 ->
         bind (marshal_e0 x) (fun s ->
           match s with
-          | Some s' -> each rest (s' :: acc)
+          | Some s' -> each rest0 (s' :: acc)
           | None -> Ret None)
     in each l []
   | VBound (mn, mx, incl) ->
@@ -4111,12 +4111,12 @@ let render_with o2 fns =
     let rec each l0 acc =
       match l0 with
       | [] -> Ret ((join (','::(' '::[])) (rev acc)), None)
-      | x :: rest ->
+      | x :: rest0 ->
         bind (render_with0 x) (fun s ->
           let (s', g) = s in
           (match g with
            | Some er -> Ret (s', (Some er))
-           | None -> each rest (s' :: acc)))
+           | None -> each rest0 (s' :: acc)))
     in each l []
   | VBound (mn, mx, incl) ->
     bind (serialize_with mn) (fun a ->
@@ -4367,7 +4367,8 @@ let is_space r =
 
 let rec assoc_N r = function
 | [] -> None
-| p :: rest -> let (k, v) = p in if N.eqb r k then Some v else assoc_N r rest
+| p :: rest0 ->
+  let (k, v) = p in if N.eqb r k then Some v else assoc_N r rest0
 
 (** val symbol : n -> toktype option **)
 
@@ -4515,7 +4516,7 @@ let next_token cl s0 =
      let (r, w) = p in
      let fin = fun x ->
        match x with
-       | Tok (t, rest) -> (t, rest)
+       | Tok (t, rest0) -> (t, rest0)
        | LErr -> (err_tok, [])
      in
      if (||) ((||) (is_alnum cl r) (is_wildcard r)) (is_escape r)
@@ -4550,16 +4551,41 @@ let rec lex_all cl fuel s =
   match fuel with
   | O -> []
   | S f ->
-    let (t, rest) = next_token cl s in
+    let (t, rest0) = next_token cl s in
     (match t.typ0 with
      | TErr -> t :: []
      | TEOF -> t :: []
-     | _ -> t :: (lex_all cl f rest))
+     | _ -> t :: (lex_all cl f rest0))
 
 (** val lex : classes -> bytes -> token0 list **)
 
 let lex cl s =
   lex_all cl (S (length s)) s
+
+type lstate = { rest : bytes; last_eof : bool }
+
+(** val linit : bytes -> lstate **)
+
+let linit s =
+  { rest = s; last_eof = false }
+
+(** val is_eof : token0 -> bool **)
+
+let is_eof t =
+  match t.typ0 with
+  | TEOF -> true
+  | _ -> false
+
+(** val lnext : classes -> lstate -> token0 * lstate **)
+
+let lnext cl st =
+  let (t, r) = next_token cl st.rest in
+  (t, { rest = r; last_eof = (is_eof t) })
+
+(** val lpeek : classes -> lstate -> token0 **)
+
+let lpeek cl st =
+  if st.last_eof then eof_tok else fst (next_token cl st.rest)
 
 (** val tok_of : token0 -> token **)
 
@@ -4917,14 +4943,16 @@ let rec string_const fuel s acc =
   | S f ->
     (match quoted_body (S (length s)) '\'' s [] with
      | Some p ->
-       let (body, rest) = p in
+       let (body, rest0) = p in
        let acc' = app acc body in
-       if has_newline rest
-       then (match skip_ws rest with
-             | [] -> Some (acc', rest)
+       if has_newline rest0
+       then (match skip_ws rest0 with
+             | [] -> Some (acc', rest0)
              | c :: r ->
-               if (=) c '\'' then string_const f r acc' else Some (acc', rest))
-       else Some (acc', rest)
+               if (=) c '\''
+               then string_const f r acc'
+               else Some (acc', rest0))
+       else Some (acc', rest0)
      | None -> None)
 
 (** val span : (char -> bool) -> bytes0 -> bytes0 -> bytes0 * bytes0 **)
@@ -5099,14 +5127,14 @@ let next s0 =
                               (S (S (S (S O))))))))))))))))))))))))))))))))))
                          then (match quoted_body (S (length r)) '"' r [] with
                                | Some p ->
-                                 let (b, rest) = p in
+                                 let (b, rest0) = p in
                                  (match b with
                                   | [] ->
                                     Some ((TBad
                                       ('z'::('e'::('r'::('o'::('-'::('l'::('e'::('n'::('g'::('t'::('h'::(' '::('d'::('e'::('l'::('i'::('m'::('i'::('t'::('e'::('d'::(' '::('i'::('d'::('e'::('n'::('t'::('i'::('f'::('i'::('e'::('r'::[]))))))))))))))))))))))))))))))))),
-                                      rest)
+                                      rest0)
                                   | _ :: _ ->
-                                    Some ((TIdent (truncate_ident b)), rest))
+                                    Some ((TIdent (truncate_ident b)), rest0))
                                | None ->
                                  Some ((TBad
                                    ('u'::('n'::('t'::('e'::('r'::('m'::('i'::('n'::('a'::('t'::('e'::('d'::(' '::('q'::('u'::('o'::('t'::('e'::('d'::(' '::('i'::('d'::('e'::('n'::('t'::('i'::('f'::('i'::('e'::('r'::[]))))))))))))))))))))))))))))))),
@@ -5117,8 +5145,8 @@ let next s0 =
                                    O)))))))))))))))))))))))))))))))))))))))
                               then (match string_const (S (length r)) r [] with
                                     | Some p ->
-                                      let (b, rest) = p in
-                                      Some ((TStr b), rest)
+                                      let (b, rest0) = p in
+                                      Some ((TStr b), rest0)
                                     | None ->
                                       Some ((TBad
                                         ('u'::('n'::('t'::('e'::('r'::('m'::('i'::('n'::('a'::('t'::('e'::('d'::(' '::('q'::('u'::('o'::('t'::('e'::('d'::(' '::('s'::('t'::('r'::('i'::('n'::('g'::[]))))))))))))))))))))))))))),
@@ -5128,7 +5156,8 @@ let next s0 =
                                         (S (S (S (S (S (S (S (S (S (S (S (S
                                         (S
                                         O))))))))))))))))))))))))))))))))))))
-                                   then let (d, rest) = span is_digit0 r [] in
+                                   then let (d, rest0) = span is_digit0 r []
+                                        in
                                         (match d with
                                          | [] ->
                                            Some ((TBad
@@ -5137,10 +5166,10 @@ let next s0 =
                                          | _ :: _ ->
                                            if Nat.leb (length d) (S (S (S (S
                                                 (S (S (S (S (S O)))))))))
-                                           then Some ((TParam d), rest)
+                                           then Some ((TParam d), rest0)
                                            else Some ((TBad
                                                   ('p'::('a'::('r'::('a'::('m'::('e'::('t'::('e'::('r'::(' '::('n'::('u'::('m'::('b'::('e'::('r'::[]))))))))))))))))),
-                                                  rest))
+                                                  rest0))
                                    else if (||) (is_digit0 c)
                                              ((&&)
                                                (is_c c (S (S (S (S (S (S (S
@@ -5577,19 +5606,19 @@ let next s0 =
                                                      (app ip (app fp ep))),
                                                      r3))
                                         else if is_ident_start c
-                                             then let (w, rest) =
+                                             then let (w, rest0) =
                                                     span is_ident_cont s []
                                                   in
                                                   let lw = map lower0 w in
-                                                  (match rest with
+                                                  (match rest0 with
                                                    | [] ->
                                                      (match keyword lw with
                                                       | Some k ->
-                                                        Some ((TKw k), rest)
+                                                        Some ((TKw k), rest0)
                                                       | None ->
                                                         Some ((TIdent
                                                           (truncate_ident lw)),
-                                                          rest))
+                                                          rest0))
                                                    | q0 :: l ->
                                                      (match l with
                                                       | [] ->
@@ -5621,16 +5650,16 @@ let next s0 =
                                                                    ('n'::[]))))
                                                         then Some ((TBad
                                                                ('p'::('r'::('e'::('f'::('i'::('x'::('e'::('d'::(' '::('s'::('t'::('r'::('i'::('n'::('g'::[])))))))))))))))),
-                                                               rest)
+                                                               rest0)
                                                         else (match keyword lw with
                                                               | Some k ->
                                                                 Some ((TKw
-                                                                  k), rest)
+                                                                  k), rest0)
                                                               | None ->
                                                                 Some ((TIdent
                                                                   (truncate_ident
                                                                     lw)),
-                                                                  rest))
+                                                                  rest0))
                                                       | q2 :: _ ->
                                                         if (&&)
                                                              (is_c q0 (S (S
@@ -5660,7 +5689,7 @@ let next s0 =
                                                                    ('n'::[]))))
                                                         then Some ((TBad
                                                                ('p'::('r'::('e'::('f'::('i'::('x'::('e'::('d'::(' '::('s'::('t'::('r'::('i'::('n'::('g'::[])))))))))))))))),
-                                                               rest)
+                                                               rest0)
                                                         else if (&&)
                                                                   ((&&)
                                                                     (is_c q0
@@ -5713,19 +5742,19 @@ let next s0 =
                                                                     ('u'::[])))
                                                              then Some ((TBad
                                                                     ('u'::('n'::('i'::('c'::('o'::('d'::('e'::(' '::('e'::('s'::('c'::('a'::('p'::('e'::[]))))))))))))))),
-                                                                    rest)
+                                                                    rest0)
                                                              else (match 
                                                                    keyword lw with
                                                                    | Some k ->
                                                                     Some
                                                                     ((TKw k),
-                                                                    rest)
+                                                                    rest0)
                                                                    | None ->
                                                                     Some
                                                                     ((TIdent
                                                                     (truncate_ident
                                                                     lw)),
-                                                                    rest))))
+                                                                    rest0))))
                                              else if is_op_char c
                                                   then let (run0, _) =
                                                          span is_op_char s []
@@ -5939,7 +5968,7 @@ let rec lex_all0 fuel s =
   | O -> (TBad ('f'::('u'::('e'::('l'::[]))))) :: []
   | S f ->
     (match next s with
-     | Some p -> let (t, rest) = p in t :: (lex_all0 f rest)
+     | Some p -> let (t, rest0) = p in t :: (lex_all0 f rest0)
      | None -> [])
 
 (** val pg_lex : bytes0 -> tok list **)
@@ -6058,8 +6087,8 @@ let rec expr0 fuel minp restricted ts =
                 ('s'::('y'::('n'::('t'::('a'::('x'::(' '::('e'::('r'::('r'::('o'::('r'::[])))))))))))))
          | TLP ->
            (match expr0 f O false r with
-            | POk (a, rest) ->
-              (match rest with
+            | POk (a, rest0) ->
+              (match rest0 with
                | [] ->
                  PFail
                    ('e'::('x'::('p'::('e'::('c'::('t'::('e'::('d'::(' '::(')'::[]))))))))))
@@ -6075,19 +6104,19 @@ let rec expr0 fuel minp restricted ts =
              ('s'::('y'::('n'::('t'::('a'::('x'::(' '::('e'::('r'::('r'::('o'::('r'::[])))))))))))))
     in
     (match prim with
-     | POk (l, rest) ->
-       let rec loop k l0 rest0 lastcmp =
+     | POk (l, rest0) ->
+       let rec loop k l0 rest1 lastcmp =
          match k with
          | O -> PFail ('f'::('u'::('e'::('l'::[]))))
          | S k' ->
-           (match rest0 with
-            | [] -> POk (l0, rest0)
+           (match rest1 with
+            | [] -> POk (l0, rest1)
             | t :: r ->
               (match t with
                | TOp o ->
                  if cmp_op o
                  then if Nat.ltb (S (S (S (S O)))) minp
-                      then POk (l0, rest0)
+                      then POk (l0, rest1)
                       else if lastcmp
                            then PFail
                                   ('n'::('o'::('n'::('-'::('a'::('s'::('s'::('o'::('c'::('i'::('a'::('t'::('i'::('v'::('e'::(' '::('c'::('o'::('m'::('p'::('a'::('r'::('i'::('s'::('o'::('n'::[]))))))))))))))))))))))))))
@@ -6098,7 +6127,7 @@ let rec expr0 fuel minp restricted ts =
                                  | PFail why -> PFail why)
                  else if addsub o
                       then if Nat.ltb (S (S (S (S (S (S (S O))))))) minp
-                           then POk (l0, rest0)
+                           then POk (l0, rest1)
                            else (match expr0 f (S (S (S (S (S (S (S (S
                                          O)))))))) restricted r with
                                  | POk (x, r') ->
@@ -6107,7 +6136,7 @@ let rec expr0 fuel minp restricted ts =
                       else if muldiv o
                            then if Nat.ltb (S (S (S (S (S (S (S (S O))))))))
                                      minp
-                                then POk (l0, rest0)
+                                then POk (l0, rest1)
                                 else (match expr0 f (S (S (S (S (S (S (S (S
                                               (S O))))))))) restricted r with
                                       | POk (x, r') ->
@@ -6116,7 +6145,7 @@ let rec expr0 fuel minp restricted ts =
                            else if beq o (str ('^'::[]))
                                 then if Nat.ltb (S (S (S (S (S (S (S (S (S
                                           O))))))))) minp
-                                     then POk (l0, rest0)
+                                     then POk (l0, rest1)
                                      else (match expr0 f (S (S (S (S (S (S (S
                                                    (S (S (S O))))))))))
                                                    restricted r with
@@ -6124,7 +6153,7 @@ let rec expr0 fuel minp restricted ts =
                                              loop k' (AOp (o, l0, x)) r' false
                                            | PFail why -> PFail why)
                                 else if Nat.ltb (S (S (S (S (S (S O)))))) minp
-                                     then POk (l0, rest0)
+                                     then POk (l0, rest1)
                                      else (match expr0 f (S (S (S (S (S (S (S
                                                    O))))))) restricted r with
                                            | POk (x, r') ->
@@ -6134,22 +6163,22 @@ let rec expr0 fuel minp restricted ts =
                  (match k0 with
                   | KAnd ->
                     if (||) restricted (Nat.ltb (S (S O)) minp)
-                    then POk (l0, rest0)
+                    then POk (l0, rest1)
                     else (match expr0 f (S (S (S O))) false r with
                           | POk (x, r') -> loop k' (mk_and l0 x) r' false
                           | PFail why -> PFail why)
                   | KOr ->
                     if (||) restricted (Nat.ltb (S O) minp)
-                    then POk (l0, rest0)
+                    then POk (l0, rest1)
                     else (match expr0 f (S (S O)) false r with
                           | POk (x, r') -> loop k' (mk_or l0 x) r' false
                           | PFail why -> PFail why)
                   | KBetween ->
                     if (||) restricted (Nat.ltb (S (S (S (S (S O))))) minp)
-                    then POk (l0, rest0)
+                    then POk (l0, rest1)
                     else (match expr0 f (S (S (S (S (S (S O)))))) true r with
-                          | POk (lo, rest1) ->
-                            (match rest1 with
+                          | POk (lo, rest2) ->
+                            (match rest2 with
                              | [] ->
                                PFail
                                  ('e'::('x'::('p'::('e'::('c'::('t'::('e'::('d'::(' '::('A'::('N'::('D'::(' '::('i'::('n'::(' '::('B'::('E'::('T'::('W'::('E'::('E'::('N'::[])))))))))))))))))))))))
@@ -6173,20 +6202,20 @@ let rec expr0 fuel minp restricted ts =
                           | PFail why -> PFail why)
                   | KIn ->
                     (match r with
-                     | [] -> POk (l0, rest0)
+                     | [] -> POk (l0, rest1)
                      | t0 :: r0 ->
                        (match t0 with
                         | TLP ->
                           if (||) restricted
                                (Nat.ltb (S (S (S (S (S O))))) minp)
-                          then POk (l0, rest0)
+                          then POk (l0, rest1)
                           else let rec items j r1 acc =
                                  match j with
                                  | O -> PFail ('f'::('u'::('e'::('l'::[]))))
                                  | S j' ->
                                    (match expr0 f O false r1 with
-                                    | POk (x, rest1) ->
-                                      (match rest1 with
+                                    | POk (x, rest2) ->
+                                      (match rest2 with
                                        | [] ->
                                          PFail
                                            ('e'::('x'::('p'::('e'::('c'::('t'::('e'::('d'::(' '::(','::(' '::('o'::('r'::(' '::(')'::[])))))))))))))))
@@ -6201,10 +6230,10 @@ let rec expr0 fuel minp restricted ts =
                                               ('e'::('x'::('p'::('e'::('c'::('t'::('e'::('d'::(' '::(','::(' '::('o'::('r'::(' '::(')'::[])))))))))))))))))
                                     | PFail why -> PFail why)
                                in items (S (length r0)) r0 []
-                        | _ -> POk (l0, rest0)))
+                        | _ -> POk (l0, rest1)))
                   | KSimilar ->
                     (match r with
-                     | [] -> POk (l0, rest0)
+                     | [] -> POk (l0, rest1)
                      | t0 :: r0 ->
                        (match t0 with
                         | TKw k1 ->
@@ -6212,26 +6241,26 @@ let rec expr0 fuel minp restricted ts =
                            | KTo ->
                              if (||) restricted
                                   (Nat.ltb (S (S (S (S (S O))))) minp)
-                             then POk (l0, rest0)
+                             then POk (l0, rest1)
                              else (match expr0 f (S (S (S (S (S (S O))))))
                                            false r0 with
                                    | POk (p, r') ->
                                      loop k' (ASimilar (l0, p)) r' false
                                    | PFail why -> PFail why)
-                           | _ -> POk (l0, rest0))
-                        | _ -> POk (l0, rest0)))
-                  | _ -> POk (l0, rest0))
-               | _ -> POk (l0, rest0)))
-       in loop (S (length rest)) l rest false
+                           | _ -> POk (l0, rest1))
+                        | _ -> POk (l0, rest1)))
+                  | _ -> POk (l0, rest1))
+               | _ -> POk (l0, rest1)))
+       in loop (S (length rest0)) l rest0 false
      | PFail w -> PFail w)
 
 (** val pg_parse : tok list -> ast option **)
 
 let pg_parse ts =
   match expr0 (S (S (length ts))) O false ts with
-  | POk (a, rest) -> (match rest with
-                      | [] -> Some a
-                      | _ :: _ -> None)
+  | POk (a, rest0) -> (match rest0 with
+                       | [] -> Some a
+                       | _ :: _ -> None)
   | PFail _ -> None
 
 (** val pg_read : bytes0 -> ast option **)
@@ -7083,7 +7112,7 @@ let cmp_leaf r op f = function
 
 let rec in_list r f = function
 | [] -> Some false
-| x :: rest -> opt_or (cmp_leaf r CEq f (VExp x)) (in_list r f rest)
+| x :: rest0 -> opt_or (cmp_leaf r CEq f (VExp x)) (in_list r f rest0)
 
 (** val qsem : row -> expr -> bool option **)
 
@@ -7230,11 +7259,11 @@ let rec dec_digits s acc n1 =
 let q_of_decimal s =
   match dec_digits s Z0 O with
   | Some p ->
-    let (p0, rest) = p in
+    let (p0, rest0) = p in
     let (ip, n1) = p0 in
-    (match rest with
+    (match rest0 with
      | [] ->
-       let p1 = ((ip, O), rest) in
+       let p1 = ((ip, O), rest0) in
        let n2 = O in
        let (p2, rest2) = p1 in
        let (mant, scale) = p2 in
@@ -7740,7 +7769,7 @@ let q_of_decimal s =
   f (h 0) (h 1) (h 2) (h 3) (h 4) (h 5) (h 6) (h 7))
          (fun b b0 b1 b2 b3 b4 b5 b6 ->
          if b
-         then let p1 = ((ip, O), rest) in
+         then let p1 = ((ip, O), rest0) in
               let n2 = O in
               let (p2, rest2) = p1 in
               let (mant, scale) = p2 in
@@ -8315,7 +8344,7 @@ let q_of_decimal s =
               then if b1
                    then if b2
                         then if b3
-                             then let p1 = ((ip, O), rest) in
+                             then let p1 = ((ip, O), rest0) in
                                   let n2 = O in
                                   let (p2, rest2) = p1 in
                                   let (mant, scale) = p2 in
@@ -9035,7 +9064,7 @@ let q_of_decimal s =
                                           else None)
                              else if b4
                                   then if b5
-                                       then let p1 = ((ip, O), rest) in
+                                       then let p1 = ((ip, O), rest0) in
                                             let n2 = O in
                                             let (p2, rest2) = p1 in
                                             let (mant, scale) = p2 in
@@ -9787,7 +9816,7 @@ let q_of_decimal s =
                                                               a0)
                                                     else None)
                                        else if b6
-                                            then let p1 = ((ip, O), rest) in
+                                            then let p1 = ((ip, O), rest0) in
                                                  let n2 = O in
                                                  let (p2, rest2) = p1 in
                                                  let (mant, scale) = p2 in
@@ -11319,7 +11348,7 @@ let q_of_decimal s =
                                                                     a0)
                                                             else None)
                                                   | None ->
-                                                    let p1 = ((ip, O), rest)
+                                                    let p1 = ((ip, O), rest0)
                                                     in
                                                     let n2 = O in
                                                     let (p2, rest2) = p1 in
@@ -12085,7 +12114,7 @@ let q_of_decimal s =
                                                                     None))
                                                                     a0)
                                                             else None))
-                                  else let p1 = ((ip, O), rest) in
+                                  else let p1 = ((ip, O), rest0) in
                                        let n2 = O in
                                        let (p2, rest2) = p1 in
                                        let (mant, scale) = p2 in
@@ -12820,7 +12849,7 @@ let q_of_decimal s =
                                                                | None -> None))
                                                          a0)
                                                else None)
-                        else let p1 = ((ip, O), rest) in
+                        else let p1 = ((ip, O), rest0) in
                              let n2 = O in
                              let (p2, rest2) = p1 in
                              let (mant, scale) = p2 in
@@ -13514,7 +13543,7 @@ let q_of_decimal s =
                                                      | None -> None))
                                                a0)
                                      else None)
-                   else let p1 = ((ip, O), rest) in
+                   else let p1 = ((ip, O), rest0) in
                         let n2 = O in
                         let (p2, rest2) = p1 in
                         let (mant, scale) = p2 in
@@ -14175,7 +14204,7 @@ let q_of_decimal s =
                                                 | None -> None))
                                           a0)
                                 else None)
-              else let p1 = ((ip, O), rest) in
+              else let p1 = ((ip, O), rest0) in
                    let n2 = O in
                    let (p2, rest2) = p1 in
                    let (mant, scale) = p2 in
@@ -14966,10 +14995,10 @@ let rec ssem r params = function
 | ABool (is_and, l) ->
   let rec go = function
   | [] -> Some is_and
-  | x :: rest ->
+  | x :: rest0 ->
     if is_and
-    then opt_and (ssem r params x) (go rest)
-    else opt_or (ssem r params x) (go rest)
+    then opt_and (ssem r params x) (go rest0)
+    else opt_or (ssem r params x) (go rest0)
   in go l
 | ANot x -> option_map negb (ssem r params x)
 | AOp (op, x, y) ->
@@ -14979,7 +15008,7 @@ let rec ssem r params = function
 | AIn (x, l) ->
   let rec go = function
   | [] -> Some false
-  | y :: rest -> opt_or (cmp2 r params CEq x y) (go rest)
+  | y :: rest0 -> opt_or (cmp2 r params CEq x y) (go rest0)
   in go l
 | ABetween (x, lo, hi) ->
   opt_and (cmp2 r params CGe x lo) (cmp2 r params CLe x hi)
